@@ -533,3 +533,89 @@ Proof.
   split; [|exact rr_rejected_by_both].
   exists fee_table. split; [reflexivity|]. split; [vm_compute; reflexivity|]. exact fee_table_lock_ordered.
 Qed.
+
+(* ------------------------------------------------------------------------------------------ *)
+(** * Calls that fail store nothing (model/FailedWrites.v, proofs/FailedWritesProofs.v)
+
+    "Every read returns a value that some write actually stored": a call that returns an error is not such a write.
+    The translator prints, next to the lock table, which paths of a method may end in a return of a non-nil error
+    (gen/Locks.v [fee_method_fails], re-extracted on every run). *)
+From Coq Require Import NArith.
+From GoBT Require Import model.FailedWrites proofs.FailedWritesProofs.
+
+(** the obligation that breaks when validation and store are merged in fees.go (a path that has already written the
+    guarded map and then returns an error): on the GENERATED tables no path on which a call may report failure
+    contains a write, calls inlined *)
+Theorem C18_fee_failed_calls_store_nothing :
+  failed_calls_store_nothing_raw gen.Locks.fee_methods gen.Locks.fee_method_fails = true.
+Proof. vm_compute. reflexivity. Qed.
+Print Assumptions C18_fee_failed_calls_store_nothing.
+
+(** for all tables the checker accepts and every call the flags mark as failing: the program the machine runs for
+    that call has no write action at all *)
+Theorem C18_failed_call_stores_nothing : forall tbl ft, failed_calls_store_nothing tbl ft = true ->
+  forall c, call_fails tbl ft c = true -> stores_nothing (inst (flat_table tbl) c) = true.
+Proof. exact failed_call_stores_nothing_proof. Qed.
+Print Assumptions C18_failed_call_stores_nothing.
+
+(** and while a thread is inside such a program ([p], what is left of the failing call, in front of the rest of its
+    work), every step it takes - in any state, with any number of other threads in any positions - leaves every
+    memory cell and every location's history of stored values exactly as they were, and leaves it inside a shorter
+    write-free block: readers see what they would have seen had the call never been made *)
+Theorem C18_failed_call_step_invisible : forall s t g s' p rest,
+  prog (thr s t) = p ++ rest -> p <> [] -> stores_nothing p = true -> step s t g = Some s' ->
+  (forall l, mem s' l = mem s l) /\ (forall l, written s' l = written s l) /\
+  exists p', prog (thr s' t) = p' ++ rest /\ stores_nothing p' = true /\ List.length p' < List.length p.
+Proof. exact failed_call_step_invisible_proof. Qed.
+Print Assumptions C18_failed_call_step_invisible.
+
+(** the shape the run-time histories are checked in (corr/C18.v [CHistoryR]): when what rejected calls carried is
+    disjoint from what was stored, "every read is initial or stored" excludes reads of rejected values *)
+Theorem C18_rejected_values_unseen : forall (init stored rejected reads : list (string * N)),
+  (forall w, In w rejected -> ~ In w (init ++ stored)) ->
+  observed_ok String.eqb N.eqb init stored reads = true -> rejected_unseen String.eqb N.eqb rejected reads = true.
+Proof.
+  exact (observed_ok_rejected_unseen string N String.eqb N.eqb
+           (fun a b H => proj1 (String.eqb_eq a b) H) (fun a b H => proj1 (N.eqb_eq a b) H)
+           String.eqb_refl N.eqb_refl).
+Qed.
+Print Assumptions C18_rejected_values_unseen.
+
+(** Non-vacuity. On the generated tables: UnmarshalJSON's first path (the document does not parse / names an unknown
+    fee type) and UpdateMinerFees' first two (empty argument, unknown miner) are flagged failing and run write-free
+    programs; UnmarshalJSON's second path (flattened index 1) is not flagged and stores the call's value. *)
+Definition fee_fails : failtable := match dec_fails gen.Locks.fee_method_fails with Some f => f | None => [] end.
+Example C18_failing_calls_of_fees_go :
+  failed_calls_store_nothing fee_table fee_fails = true /\
+  call_fails fee_table fee_fails (mkCall TFeeQuote "UnmarshalJSON" 0 7 0 42) = true /\
+  call_fails fee_table fee_fails (mkCall TFeeQuote "UnmarshalJSON" 1 7 0 42) = false /\
+  call_fails fee_table fee_fails (mkCall TFeeQuotes "UpdateMinerFees" 1 0 7 42) = true /\
+  inst (flat_table fee_table) (mkCall TFeeQuotes "UpdateMinerFees" 1 0 7 42)
+  = [GAcq (TFeeQuotes, 0) MW; GRead (TFeeQuotes, 0) "quotes"; GRel (TFeeQuotes, 0) MW] /\
+  stores_nothing (inst (flat_table fee_table) (mkCall TFeeQuote "UnmarshalJSON" 1 7 0 42)) = false.
+Proof. vm_compute. repeat split; reflexivity. Qed.
+
+(** The model does exhibit the fault: UnmarshalJSON with validation and store merged under the lock (the map is
+    replaced, then an unknown fee type makes the call return an error) is a well-locked table - no race, the lock
+    discipline has nothing to say - that this checker rejects; and in the machine the "failed" call has stored its
+    value: a reader that runs after it reads 42, not the 5 that was there. *)
+Definition merged_unmarshal : rawtable :=
+  [("FeeQuote", "Fee", [[("acquire","self","R"); ("read","self","fees"); ("release","self","R")]]);
+   ("FeeQuote", "UnmarshalJSON", [[];
+      [("acquire","self","W"); ("write","self","fees"); ("release","self","W")];
+      [("acquire","self","W"); ("write","self","fees"); ("write","self","fees"); ("release","self","W")]])].
+Definition merged_fails : rawfails := [("FeeQuote", "Fee", [true]); ("FeeQuote", "UnmarshalJSON", [true; true; false])].
+Definition merged_table : list method := match dec_table merged_unmarshal with Some t => t | None => [] end.
+Definition merged_P : tid -> list call :=
+  fun t => match t with
+           | 0 => [mkCall TFeeQuote "UnmarshalJSON" 1 7 0 42]
+           | 1 => [mkCall TFeeQuote "Fee" 0 7 0 0]
+           | _ => []
+           end.
+Example C18_merged_validate_and_store_rejected :
+  well_locked_raw merged_unmarshal = true /\
+  failed_calls_store_nothing_raw merged_unmarshal merged_fails = false /\
+  option_map (fun s => log (thr s 1))
+    (run (init_state (fun _ => 5) (call_progs merged_table merged_P)) [(0,0);(0,0);(0,0);(0,0);(1,0);(1,0);(1,0)])
+  = Some [((TFeeQuote, 7, "fees"), 42)].
+Proof. vm_compute. repeat split; reflexivity. Qed.
